@@ -29,7 +29,7 @@ Lemma rebuild_fields_eq seed st1 st2 :
 Proof.
   intros E1 E2 E3 E4. unfold rebuild. rewrite E1, E2.
   rewrite (close_ext st1 st2 (deps_of_fields _ _ E1 E2 E3 E4)).
-  destruct (close _ st2 [seed] [seed] []) as [[ns es] [|]]; cbn; auto.
+  destruct (close _ st2 seed seed []) as [[ns es] [|]]; cbn; auto.
 Qed.
 
 (** * re-discovery is idempotent *)
@@ -173,11 +173,11 @@ Proof.
 Qed.
 
 (** * the survivors are stable under a later, non-modifying processing *)
-Definition reprocess (disk : list source) (seed : nref) (st : state) : option state := rebuild seed (discover disk st).
+Definition reprocess (disk : list source) (seed : list nref) (st : state) : option state := rebuild seed (discover disk st).
 
 Theorem later_processing_stable disk seed st o st' :
   step disk seed st o = Some st' ->
-  exists st'', reprocess disk seed st' = Some st'' /\
+  exists st'', reprocess disk (next_seeds o st seed) st' = Some st'' /\
                st_nodes st'' = st_nodes st' /\ st_edges st'' = st_edges st' /\
                st_cache st'' = st_cache st' /\ st_srcs st'' = st_srcs st'.
 Proof.
@@ -188,10 +188,10 @@ Proof.
   { replace st' with (mk_state (st_srcs d1) (st_cache d1) (st_nodes st') (st_edges st') (st_removed d1) (st_added d1))
       by (destruct st'; cbn in *; now subst).
     apply discover_idempotent. }
-  pose proof (rebuild_fields_eq seed (discover disk st') d1) as Hr.
+  pose proof (rebuild_fields_eq (next_seeds o st seed) (discover disk st') d1) as Hr.
   rewrite Ed in Hr. cbn [st_srcs st_cache st_removed st_added] in Hr.
   specialize (Hr eq_refl eq_refl eq_refl eq_refl). rewrite H in Hr. rewrite Ed.
-  destruct (rebuild seed (mk_state (st_srcs d1) (st_cache d1) (st_nodes st') (st_edges st') (st_removed d1) (st_added d1))) as [st''|] eqn:R;
+  destruct (rebuild (next_seeds o st seed) (mk_state (st_srcs d1) (st_cache d1) (st_nodes st') (st_edges st') (st_removed d1) (st_added d1))) as [st''|] eqn:R;
     [|contradiction].
   exists st''. destruct Hr as [N E]. split; [reflexivity|]. split; [exact N|]. split; [exact E|].
   destruct (rebuild_fields _ _ _ R) as (S2 & C2 & _ & _). cbn in S2, C2. split; congruence.
